@@ -135,6 +135,9 @@ func seq(n int) []int {
 
 func TestC11Replicated(t *testing.T) {
 	rapid.Check(t, func(t *rapid.T) {
+		if vstat.OverBudget() {
+			return
+		}
 		vstat.Case()
 		sc := genScenario(t)
 		ids := make([]tla.Value, sc.n)
